@@ -25,7 +25,7 @@ ASSUMPTIONS = ['completion order and hash seed are owned; finer timing (pre-empt
                'timestamps, durations and metadata blocks are not compared']
 EXHAUSTIVE = {'quick': False, 'thorough': True}
 
-STAGES = ['stats', 'refm', 'qmark', 'mapping']
+STAGES = ['stats', 'refm', 'qmark', 'mapping', 'mapdirect']
 
 
 def budget(tier):
@@ -39,8 +39,8 @@ def strategy_(draw):
     spec = {'stage': stage, 'k': k,
             'orders': [list(draw(st.permutations(list(range(k))))) for _ in range(2)],
             'hash_seeds': [draw(st.integers(1, 5))]}
-    if stage == 'mapping':
-        m = copy.deepcopy(draw(gen.map_cases(max_cells=12, max_leaves=8)))
+    if stage in ('mapping', 'mapdirect'):
+        m = copy.deepcopy(draw(gen.map_cases(max_cells=12, max_leaves=8, allow_flatten=(stage == 'mapping'), allow_drop=(stage == 'mapping'))))
         n = len(m['query']['cells'])
         m['cfg']['n_processors'] = k
         m['cfg']['chunk_size'] = draw(st.integers(1, max(1, math.ceil(n / k))))
@@ -73,7 +73,7 @@ def enumerate_specs(tier):
             # several cases of <=6 orders each so that shards share the work
             for j in range(0, len(orders), 6):
                 spec = {'stage': stage, 'k': k, 'orders': orders[j:j + 6], 'hash_seeds': [1, 2] if j == 0 else []}
-                if stage == 'mapping':
+                if stage in ('mapping', 'mapdirect'):
                     spec['map'] = gen.derived_case(FIXED_TREE, 7 + k)
                     spec['map']['query']['cells'] = [f'c{i}' for i in range(4 * k)]
                     spec['map']['cfg'].update(n_processors=k, chunk_size=3, tmp_dir=True)
@@ -98,9 +98,11 @@ def prepare(d, spec):
     """write the inputs of the stage under test; returns the stage_runner argument dict"""
     stage = spec['stage']
     a = {'stage': stage, 'dir': str(d), 'n_processors': spec['k']}
-    if stage == 'mapping':
+    if stage in ('mapping', 'mapdirect'):
         materialize.write_map_case(d, spec['map'])
         a['cfg'] = spec['map']['cfg']
+        if stage == 'mapdirect':
+            (d / 'spec.json').write_text(json.dumps(spec['map']))
         return a
     rs = spec['ref']
     pipeline.write_ref_h5ad(d / 'ref.h5ad', rs)
@@ -179,7 +181,7 @@ def check(spec):
             if diff:
                 raise Violation('result_depends_on_hash_seed', {'stage': stage, 'hash_seed': hs, 'differing': diff[:6]})
         # ---- worker counts
-        if stage == 'mapping':
+        if stage in ('mapping', 'mapdirect'):
             cfg = spec['map']['cfg']
             n = len(spec['map']['query']['cells'])
             eff = min(max(1, math.ceil(n / cfg['n_processors'])), cfg['chunk_size'])
@@ -188,7 +190,7 @@ def check(spec):
                     continue
                 if min(max(1, math.ceil(n / p)), cfg['chunk_size']) != eff:
                     continue
-                a2 = dict(a, cfg=dict(cfg, n_processors=p), work=str(d / f'w_p{p}'), tag=f'p{p}')
+                a2 = dict(a, cfg=dict(cfg, n_processors=p), cfg_override={'n_processors': p}, work=str(d / f'w_p{p}'), tag=f'p{p}')
                 got = stage_runner.run_stage(a2)
                 classes.append('same_chunking_other_worker_count')
                 diff = differs(base, got)
